@@ -104,6 +104,15 @@ class Gen:
                 calls.append({"args": [self.value(a, "param") for a in t["ps"]],
                               "ret": None if t["r"]["k"] == "unit" else self.value(t["r"], "param")})
             return {"calls": calls}
+        if k == "trait":
+            # the script of a trait object: which method the Rust body invokes (in this order), with which arguments, and the answers
+            calls = []
+            for _ in range(r.choice([1, 2, 3, 4])):
+                q = r.randrange(len(t["ms"]))
+                m = t["ms"][q]
+                calls.append({"m": q, "args": [self.value(a, "param") for a in m["ps"]],
+                              "ret": None if m["r"]["k"] == "unit" else self.value(m["r"], "param")})
+            return {"calls": calls}
         raise ValueError(k)
 
     # ---------------------------------------------------------------------------------- expected tokens
@@ -137,7 +146,7 @@ class Gen:
             return "err(%s)" % ("" if t["err"]["k"] == "unit" else self.tok(t["err"], v["err"]))
         if k == "unit":
             return "()"
-        if k == "cb":
+        if k in ("cb", "trait"):
             return "cb"
         raise ValueError(k)
 
@@ -182,7 +191,7 @@ class Gen:
             return 'match &(%s) { Ok(x) => { let _ = &x; format!("ok({})", %s) } Err(x) => { let _ = &x; format!("err({})", %s) } }' % (e, ok, er)
         if k == "unit":
             return '"()".to_string()'
-        if k == "cb":
+        if k in ("cb", "trait"):
             return '"cb".to_string()'
         raise ValueError(k)
 
@@ -253,6 +262,21 @@ class Gen:
         if not slots:
             lines = ['crate::dv_event("RustEnter", "f%d", "");' % n]
         for i, p in enumerate(sig["params"]):
+            if p["k"] == "trait":
+                # every scripted invocation of a trait method: the method's index is part of the token ("t1|...")
+                for call in args["params"][i]["calls"]:
+                    m = p["ms"][call["m"]]
+                    binds, names, fmts = [], [], []
+                    for j, (a, x) in enumerate(zip(m["ps"], call["args"])):
+                        binds.append("let c%d_ = %s;" % (j, self.rust_make(a, x)))
+                        names.append("c%d_" % j)
+                        fmts.append(self.rust_fmt(a, "c%d_" % j))
+                    tokens = '&format!("t%d|{}", vec![%s].join(";"))' % (call["m"], ", ".join(fmts)) if fmts else '"t%d|"' % call["m"]
+                    res = '"()".to_string()' if m["r"]["k"] == "unit" else self.rust_fmt(m["r"], "cr_")
+                    lines.append('{ %s crate::dv_event("CbInvoke", "f%d.cb%d", %s); let cr_ = p%d.t%d(%s); let _ = &cr_; '
+                                 'crate::dv_event("CbResult", "f%d.cb%d", &%s); }'
+                                 % (" ".join(binds), n, i, tokens, i, call["m"], ", ".join(names), n, i, res))
+                continue
             if p["k"] != "cb":
                 continue
             for call in args["params"][i]["calls"]:
@@ -339,6 +363,12 @@ class Gen:
             out.append("%s.data = %s; %s.len = %d;" % (lv, nm, lv, len(items)))
         elif k == "cb":
             out.append("%s.data = NULL; %s.run_callback = %s; %s.destructor = %s;" % (lv, lv, v["c_run"], lv, v["c_drop"]))
+        elif k == "trait":
+            # the first word of the object is the data pointer (the generated header calls that member `destructor`)
+            out.append("{ const void* d_ = (const void*)(uintptr_t)0x5150; memcpy(&%s, &d_, sizeof d_); }" % lv)
+            out.append("%s.vtable.destructor = %s; %s.vtable.SIZE = 0; %s.vtable.ALIGNMENT = 1;" % (lv, v["c_drop"], lv, lv))
+            for q, fn in enumerate(v["c_runs"]):
+                out.append("%s.vtable.run_t%d_callback = %s;" % (lv, q, fn))
         else:
             raise ValueError("c_assign " + k)
 
@@ -392,7 +422,7 @@ class Gen:
             out.append('L(")"); }')
         elif k == "unit":
             out.append('L("()");')
-        elif k == "cb":
+        elif k in ("cb", "trait"):
             out.append('L("cb");')
         else:
             raise ValueError("c_fmt " + k)
@@ -437,6 +467,39 @@ class Gen:
         self.prelude.append('static void %s(const void* d_) { (void)d_; LB(); LE("CbDrop", "%s"); }' % (drop, f))
         return {"c_run": run, "c_drop": drop}
 
+    def c_trait(self, n, i, t, v):
+        """the C functions behind trait parameter i of call n: one per trait method (logging CbEnter with the method's tag and what
+        it receives, answering with the scripted value, checking the data pointer) and the destructor (CbDrop)"""
+        drop, f = "cbd_%d_%d" % (n, i), "f%d.cb%d" % (n, i)
+        runs = []
+        for q, m in enumerate(t["ms"]):
+            run = "cb_%d_%d_%d" % (n, i, q)
+            ps = "".join(", %s c%d" % (self.c_ty(a), j) for j, a in enumerate(m["ps"]))
+            body = ['LB(); L("t%d|"); if ((uintptr_t)d_ != 0x5150) L("BAD-DATA-POINTER;");' % q]
+            for j, a in enumerate(m["ps"]):
+                if j:
+                    body.append('L(";");')
+                self.c_fmt(a, "c%d" % j, body)
+            body.append('LE("CbEnter", "%s");' % f)
+            rt = self.c_ty(m["r"])
+            mine = [c for c in v["calls"] if c["m"] == q]
+            if m["r"]["k"] != "unit":
+                body.append("%s r_; memset(&r_, 0, sizeof r_); static int k_; switch (k_++) {" % rt)
+                for c, call in enumerate(mine):
+                    asg = []
+                    self.c_assign(m["r"], call["ret"], "r_", asg, [])
+                    body.append("case %d: %s break;" % (c, " ".join(asg)))
+                body.append("default: break; }")
+                body.append("LB();")
+                self.c_fmt(m["r"], "r_", body)
+                body.append('LE("CbReturn", "%s"); return r_;' % f)
+            else:
+                body.append('LB(); L("()"); LE("CbReturn", "%s");' % f)
+            self.prelude.append("static %s %s(void* d_%s) { %s }" % (rt, run, ps, " ".join(body)))
+            runs.append(run)
+        self.prelude.append('static void %s(const void* d_) { LB(); if ((uintptr_t)d_ != 0x5150) L("BAD-DATA-POINTER"); LE("CbDrop", "%s"); }' % (drop, f))
+        return {"c_runs": runs, "c_drop": drop}
+
     def c_call(self, n, sig, sym, proto, args, write):
         """C statements performing one call. proto = (ret C type, [param C types]) parsed from the generated header."""
         rty, ptys = proto
@@ -459,6 +522,8 @@ class Gen:
             out.append("%s a%d; memset(&a%d, 0, sizeof a%d);" % (ptys[idx], i, i, i))
             if p["k"] == "cb":
                 args["params"][i] = dict(args["params"][i], **self.c_callback(n, i, p, args["params"][i]))
+            if p["k"] == "trait":
+                args["params"][i] = dict(args["params"][i], **self.c_trait(n, i, p, args["params"][i]))
             self.c_assign(p, args["params"][i], "a%d" % i, out, tmp)
             names.append("a%d" % i)
             slot_fmt.append((p, "a%d" % i))
@@ -474,7 +539,7 @@ class Gen:
                 out.append('L("p:%%llx", (unsigned long long)(uintptr_t)%s);' % e)
             else:
                 self.c_fmt(t, e, out)
-        cbs = ["f%d.cb%d" % (n, i) for i, p in enumerate(sig["params"]) if p["k"] == "cb"]
+        cbs = ["f%d.cb%d" % (n, i) for i, p in enumerate(sig["params"]) if p["k"] in ("cb", "trait")]
         if cbs:
             out.append('LEC("f%d", "%s");' % (n, json.dumps(cbs).replace('"', '\\"')))
         else:
